@@ -8,7 +8,7 @@ from pyvc.pandas_model import STable, SSeries, SChunk
 from .spec import abbr, hcode, hnum, fmt03, SigRel, count_true, _rv, _isnan, code_text, reveal_code, abbr_len_fact
 from pyvc.smt import Sequent, LemmaInst
 
-from .native import metar_msg_oracle
+from .native import metar_msg_oracle, cleanup_oracle
 
 CHUNK = 'ampycloud.data.CeiloChunk'
 WHICH = ('slices', 'groups', 'layers')
@@ -204,6 +204,7 @@ def register(reg):
     ))
     register_metarize(reg)
     register_metarize2(reg)
+    register_cleanup(reg)
 
 
 # =============================================================================================
@@ -491,4 +492,118 @@ def register_metarize2(reg):
                    'col_models': {'code': lambda n: fresh_column(n, 'code', 'str', None, with_defd=True)}}},
         canaries={'unsorted': lambda result, self, which: z3.BoolVal(False) if not isinstance(self.fields['_' + which], STable) else
                   Forall(0, self.fields['_' + which].n, lambda i: Not(self.fields['_' + which].col('significant')[i]))},
+    ))
+
+
+# =============================================================================================
+# _cleanup_pdf (C07): cropping above MSA + MSA_HIT_BUFFER, row by row
+# =============================================================================================
+from pyvc.rows_model import SRows
+from pyvc.values import cnt as _cnt_fn, BoolArr as _BoolArr
+
+
+def _checked_frame(name, ctx, pdf=None, req_cols=None):
+    """modular result of check_data_consistency: a fresh frame with exactly the four columns and the required dtypes;
+    nothing is known about its index labels (the user's labels are kept)"""
+    n = z3.Int('rows_n')
+    ctx.assume(n >= 1)
+    ctx.len_vars.append(n)
+    ceilo = z3.Array('in_ceilo', z3.IntSort(), z3.StringSort())
+    dt = z3.Array('in_dt', z3.IntSort(), z3.RealSort())
+    h = z3.Array('in_height', z3.IntSort(), z3.RealSort())
+    hn = z3.Array('in_height_nan', z3.IntSort(), z3.BoolSort())
+    ty = z3.Array('in_type', z3.IntSort(), z3.IntSort())
+    lab = z3.Array('in_label', z3.IntSort(), z3.IntSort())
+    cols = {'ceilo': (lambda i: SStr(ceilo[i])), 'dt': (lambda i: SFloat(dt[i], False, 'npfloat')),
+            'height': (lambda i: SFloat(h[i], hn[i], 'npfloat')), 'type': (lambda i: SInt(ty[i], 'npint'))}
+    fr = SRows(n, cols, (lambda i: lab[i]))
+    fr.kinds = {'ceilo': 'str', 'dt': 'float', 'height': 'float', 'type': 'int'}
+    ctx.ghost['checked'] = dict(n=n, ceilo=ceilo, dt=dt, h=h, hn=hn, ty=ty, lab=lab)
+
+    def ext(m):
+        ln = smt.z3val_to_py(m.eval(n, model_completion=True))
+        ev = lambda t: smt.z3val_to_py(m.eval(t, model_completion=True))
+        return [{'label': ev(lab[j]), 'ceilo': 'A', 'dt': float(-j), 'type': ev(ty[j]),
+                 'height': float('nan') if ev(hn[j]) else ev(h[j])} for j in range(min(ln, 8))]
+    ctx.extractors['rows'] = ext
+    return fr
+
+
+class ChunkForCleanup(Spec):
+    def __init__(self, msa):
+        self.msa = msa
+
+    def make(self, name, ctx):
+        msa = None if self.msa is None else Float(nan=False).make('MSA', ctx)
+        buf = Float(nan=False).make('MSA_HIT_BUFFER', ctx)
+        max0 = Int().make('MAX_HITS_OKTA0', ctx)
+        fields = {'_prms': {'MSA': msa, 'MSA_HIT_BUFFER': buf, 'MAX_HITS_OKTA0': max0}, 'DATA_COLS': Opaque('DATA_COLS')}
+        return SChunk('ampycloud.data.AbstractChunk', fields, {})
+
+    def describe(self):
+        return f'chunk under construction (MSA {"None" if self.msa is None else "float"})'
+
+
+def _same_float(a, b):
+    return And(_isnan(a) == _isnan(b), Implies(Not(_isnan(a)), _rv(a) == _rv(b)))
+
+
+def _cleanup_post(result, self, data):
+    ctx = smt.CURRENT_CTX
+    g = ctx.ghost['checked']
+    n, h, hn, ty, dt, ceilo = g['n'], g['h'], g['hn'], g['ty'], g['dt'], g['ceilo']
+    msa = self.fields['_prms']['MSA']
+    flag = self.fields.get('_clouds_above_msa_buffer')
+    flag_t = lift(flag) if isinstance(flag, bool) else flag.t
+    R = result
+    rt, rh, rdt, rc = R.cols['type'], R.cols['height'], R.cols['dt'], R.cols['ceilo']
+
+    def unchanged(i):
+        return And(rt(i).t == ty[i], _same_float(rh(i), SFloat(h[i], hn[i])), rdt(i).v == dt[i], rc(i).t == ceilo[i])
+    if msa is None:
+        return {'no_msa.nothing_cropped': Forall(0, n, lambda i: And(R.present(i), unchanged(i))),
+                'no_msa.flag_false': Not(flag_t)}
+    lim = msa.v + self.fields['_prms']['MSA_HIT_BUFFER'].v
+    max0 = self.fields['_prms']['MAX_HITS_OKTA0'].t
+    above = lambda i: And(Not(hn[i]), h[i] > lim)
+    out = {
+        # every hit at or below the limit (and every non-detection) is kept unchanged
+        'rows.kept_at_or_below_limit': Forall(0, n, lambda i: Implies(Not(above(i)), And(R.present(i), unchanged(i)))),
+        # first hits / VV hits above the limit become non-detections
+        'rows.first_hits_become_nondetections': Forall(0, n, lambda i: Implies(And(above(i), ty[i] <= 1), And(
+            R.present(i), rt(i).t == 0, _isnan(rh(i)), rdt(i).v == dt[i], rc(i).t == ceilo[i]))),
+        # second and higher hits above the limit are removed
+        'rows.higher_hits_dropped': Forall(0, n, lambda i: Implies(And(above(i), ty[i] > 1), Not(R.present(i)))),
+    }
+    masks = ctx.ghost.get('label_masks', [])
+    if len(masks) == 2:
+        A, B = masks
+        U = smt.fresh('above', _BoolArr)
+        ctx.assume(Forall(0, n, lambda i: U[i] == above(i), name='ua'))
+        ctx.note_cnt(U)
+        out['flag.masks_partition_the_hits_above'] = Forall(0, n, lambda i: And(U[i] == Or(A[i], B[i]), Not(And(A[i], B[i]))))
+        # cnt_union (proved lemma): for a disjoint union the counts add up -- premise = the clause above
+        out['flag.raised_iff_more_than_MAX_HITS_OKTA0_above'] = Sequent(
+            [LemmaInst('cnt_union', _cnt_fn(U, n) == _cnt_fn(A, n) + _cnt_fn(B, n))], flag_t == (_cnt_fn(U, n) > max0))
+    return out
+
+
+def register_cleanup(reg):
+    refused = z3.Bool('input_refused')
+    reg.add(Contract(
+        'ampycloud.utils.utils.check_data_consistency', properties=('C15', 'C07', 'C10'),
+        result=_checked_frame,
+        raises={'AmpycloudError': lambda pdf, req_cols=None: refused},
+        notes='ASSUMED at the call site in _cleanup_pdf: a fresh four-column frame with the required dtypes (see C15 for the function itself)'))
+    reg.add(Contract(
+        'ampycloud.data.AbstractChunk._cleanup_pdf', properties=('C07', 'C05', 'C10'),
+        cases=[('msa=None', {'self': ChunkForCleanup(None), 'data': Const(Opaque('user frame (deep copy)'))}),
+               ('msa=float', {'self': ChunkForCleanup('float'), 'data': Const(Opaque('user frame (deep copy)'))})],
+        raises={'AmpycloudError': lambda self, data: refused},
+        ensures=_cleanup_post,
+        native_oracle=cleanup_oracle,
+        canaries={'nothing_ever_dropped': lambda result, self, data: Forall(0, smt.CURRENT_CTX.ghost['checked']['n'], lambda i: result.present(i)),
+                  'flag_never_raised': lambda result, self, data: Not(lift(self.fields['_clouds_above_msa_buffer'])
+                                                                    if isinstance(self.fields['_clouds_above_msa_buffer'], bool)
+                                                                    else self.fields['_clouds_above_msa_buffer'].t)},
     ))
